@@ -63,6 +63,7 @@ type Exec struct {
 	notExist   Value
 	curG       int         // goroutine currently executed by the scheduler (+1), 0 = harness main
 	protected  map[int]int // object id -> sync cell of the mutex that must be held to touch it
+	DecodeFailKind *smt.Term
 	WatcherChan Value
 	WatcherDone Value
 	Decoded    Value                                       // value registered by verifrt.TOMLBytes for the decoder stubs
